@@ -65,13 +65,16 @@ Fixpoint upd {A} (n : nat) (x : A) (l : list A) : list A :=
   | y :: l', S n' => y :: upd n' x l'
   end.
 
-(* non-trivial copy/move constructor; non-trivial destructor *)
-Definition ntc (p : param) : bool := match pty p with TTrk | TTrkC => true | _ => false end.
+(* non-trivial copy ([mv] = false) / move ([mv] = true) constructor; non-trivial destructor *)
+Definition ntc (mv : bool) (p : param) : bool :=
+  match pty p with TTrk | TTrkC => true | TTrkCC => negb mv | TTrkMC => mv | _ => false end.
 Definition ntd (p : param) : bool := match pty p with TTrk => true | _ => false end.
 (* ListTraits::IS_TRIVIALLY_{COPY,MOVE}_CONSTRUCTIBLE / IS_TRIVIALLY_DESTRUCTIBLE *)
-Definition all_ctriv (L : list param) : bool := forallb (fun p => negb (ntc p)) L.
+Definition all_ctriv (mv : bool) (L : list param) : bool := forallb (fun p => negb (ntc mv p)) L.
 Definition all_dtriv (L : list param) : bool := forallb (fun p => negb (ntd p)) L.
-Definition all_triv (L : list param) : bool := all_ctriv L && all_dtriv L.
+(* trivially RELOCATABLE lists (ListTraits::IS_TRIVIALLY_MOVE_CONSTRUCTIBLE && IS_TRIVIALLY_DESTRUCTIBLE):
+   what erase and reserve dispatch on.  Copying additionally asks for all_ctriv false *)
+Definition all_triv (L : list param) : bool := all_ctriv true L && all_dtriv L.
 Definition bidn (b : option nat) : nat := match b with Some n => n | None => O end.
 
 Definition slot (v : vec) (i : Z) : option Z := nth (Z.to_nat i) (t_slots (v_tbl v)) None.
@@ -122,7 +125,8 @@ Fixpoint store_from (L : list param) (prevs : list Z) (vals : list (list (list Z
   | p :: L', pt :: prevs', objs :: vals' =>
       let a' := align_if (pt <? pal p) (pal p) a in
       let m1 := mwrite m a' (concat objs) in
-      let evs := if ntc p then obj_events (fun x => ECtor bid x (psz p)) a' (psz p) (length objs)
+      (* the harness passes const lvalues: the objects are COPY-constructed *)
+      let evs := if ntc false p then obj_events (fun x => ECtor bid x (psz p)) a' (psz p) (length objs)
                  else [] in
       let '(m2, evs2, e) := store_from L' prevs' vals' bid m1 (a' + Z.of_nat (length objs) * psz p) in
       (m2, evs ++ evs2, e)
@@ -235,9 +239,9 @@ Fixpoint move_objs (p : param) (bid : nat) (m : mem) (src dst : Z) (n : nat) : m
   | S n' =>
       let bs := mread m src (Z.to_nat (psz p)) in
       let m1 := mwrite m dst bs in
-      let m2 := if ntc p then mwrite m1 src (moved_bytes (psz p)) else m1 in
+      let m2 := if ntc true p then mwrite m1 src (moved_bytes (psz p)) else m1 in
       let '(m3, evs) := move_objs p bid m2 (src + psz p) (dst + psz p) n' in
-      (m3, (if ntc p then [EMoveC bid dst (psz p) bid src] else []) ++ evs)
+      (m3, (if ntc true p then [EMoveC bid dst (psz p) bid src] else []) ++ evs)
   end.
 
 Fixpoint move_fields (L : list param) (prevs : list Z) (fl : list (Z * Z)) (bid : nat) (m : mem) (a : Z)
@@ -275,7 +279,7 @@ Fixpoint move_forward_nt (L : list param) (v : vec) (from i : Z) (n : nat) : vec
   end.
 
 Definition move_forward (L : list param) (v : vec) (from to : Z) : vec * list ev :=
-  if all_ctriv L && all_dtriv L then move_forward_triv L v from to
+  if all_triv L then move_forward_triv L v from to
   else move_forward_nt L v from to (Z.to_nat (vsize L v - from)).
 
 (* ---------- pop_back, erase, clear (vector.hpp:183-225) ---------- *)
@@ -320,7 +324,7 @@ Fixpoint relocate_fields (mv : bool) (L : list param) (fl : list (Z * Z)) (sbid 
   match L, fl with
   | p :: L', (a, c) :: fl' =>
       let '(ms1, m1, e1) :=
-        if ntc p then relocate_objs mv p sbid bid ms m a (a + d) (Z.to_nat c) else (ms, m, []) in
+        if ntc mv p then relocate_objs mv p sbid bid ms m a (a + d) (Z.to_nat c) else (ms, m, []) in
       let '(ms2, m2, e2) := relocate_fields mv L' fl' sbid bid ms1 m1 d in
       (ms2, m2, e1 ++ e2)
   | _, _ => (ms, m, [])
@@ -347,9 +351,9 @@ Definition insert_into (mv destr : bool) (L : list param) (src : vec) (bid : nat
   let m0 := mcopy (v_mem src) 0 junk 0 used in
   let raw := [ERaw bid 0 used] in
   (* IS_TRIVIAL && (!IsDestruct || IS_TRIVIALLY_DESTRUCTIBLE) (vector.hpp:401) *)
-  if all_ctriv L && (negb destr || all_dtriv L) then (src, m0, raw)
+  if all_ctriv mv L && (negb destr || all_dtriv L) then (src, m0, raw)
   else
-    let '(src1, m1, e1) := if all_ctriv L then (src, m0, [])
+    let '(src1, m1, e1) := if all_ctriv mv L then (src, m0, [])
                            else relocate_elems mv L src bid m0 0 (Z.to_nat (vsize L src)) in
     let '(src2, e2) := if destr && negb (all_dtriv L)
                        then destruct_range L src1 0 (Z.to_nat (vsize L src1)) else (src1, []) in
